@@ -16,6 +16,8 @@ func init() {
 			"the meta page write happens inside the metalock critical section and pending pages are released only at writer begin, under metalock. " +
 			"NOT decided: equality of the whole view with a model, that the RIGHT pending sets are released (value-level, see C09/C10), goroutine schedules beyond lock-set reasoning. One call path violating this property on the current tree is reported under C08.R4 (known finding).",
 		Run: func(c *Ctx) {
+			rulePendingSlicesAligned(c, "C02.R12") // the reader-extent release decides per page by alloctx[i]
+			c17R1(c, "C02.R13") // a reader inside a read-only handle is invisible to a writer in another handle: only the shared file lock keeps that writer out
 			c02R1(c, "C02.R1")
 			c02R2(c, "C02.R2")
 			c02R3(c, "C02.R3")
